@@ -54,6 +54,14 @@ func contentFor(id string) string {
 	if id == "a" || id == "A" || id == "Aa" || id == "aB" {
 		return "<shared content>"
 	}
+	// an ID that is a prefix of another one, with contents making up the difference:
+	// "b"+"b<tail>" and "bb"+"<tail>" are the same text, the declarations are not the same
+	if id == "b" {
+		return "b<tail>"
+	}
+	if id == "bb" {
+		return "<tail>"
+	}
 	if len(id)%2 == 0 {
 		return "<" + id + "> 100% done %d %% %!s\n"
 	}
@@ -125,7 +133,7 @@ func checkC19(cfg *core.Config) int {
 	// exhaustive part: every list up to length maxLen over alphabet x priority.
 	// Since the space is closed under permutation, agreement with the
 	// order-independent reference on every list is permutation invariance.
-	alphabet := []string{"", "a", "A", "aa"} // "a"/"A": IDs differing by case only are distinct
+	alphabet := []string{"", "a", "A", "aa", "b", "bb"} // "a"/"A": IDs differing by case only are distinct
 	maxLen := cfg.Pick(5, 7)
 	symbols := len(alphabet) * 2
 	total := 0
@@ -169,7 +177,7 @@ func checkC19(cfg *core.Config) int {
 	// elements, where instability becomes observable), plus permutations.
 	nRandom := cfg.Pick(4000, 150000)
 	rng := core.Rand(cfg.Seed, "C19")
-	pool := []string{"", "a", "aa", "ab", "A", "Aa", "AB", "aB", "B", "Z", "_x", "__header", "aa_header", "zz_", "é", "a b", "10", "9", "A.b", "ac_constraints", "ab_T", "aaa_C"}
+	pool := []string{"", "a", "aa", "ab", "b", "bb", "Ar10_Int", "Ar2_Int", "Ar9_Int", "v01", "v1", "A", "Aa", "AB", "aB", "B", "Z", "_x", "__header", "aa_header", "zz_", "é", "a b", "10", "9", "A.b", "ac_constraints", "ab_T", "aaa_C"}
 	perms := 0
 	for i := 0; i < nRandom; i++ {
 		n := 1 + rng.Intn(60)
